@@ -6,7 +6,7 @@
      value of an E type: S{val*}  (root members then one _ / !val per addition)
      value of an H type: C<i>:val (i over root ++ extensions)
    commands:  xder|xoer <ety> <val> -> hex | NONE        xuper <std 0|1> <ety> <val>
-              xberdec <ety> <hex> | xuperdec <std> <ety> <hex> | xoerdec <std> <ety> <hex>
+              xberdec <ety> <hex> | xuperdec <std> <ety> <hex> | xoerdec <ety> <hex>
                   -> OK <consumed> <val> | FAIL
               xtrunc <k> <ety> -> ety with the first k additions / extension alternatives
               xtruncv <k> <ety> <val> -> the value with the first k additions only
@@ -14,7 +14,10 @@
               spec_open <hex> -> open type bits of the contents, zero padded to octets (X.691 wording)
               xopen <hex> -> the same by the model of uper_open_type_put
               spec_unused <n> -> unused-bits octet of an n-bit presence bitmap
-              spec_nslength <std> <n>, spec_nsnnwn <std> <n> -> bits as a 0/1 string | NONE *)
+              spec_nslength <n>, spec_nsnnwn <n> -> bits as a 0/1 string | NONE
+   <std> is the switch of the base codec model (components); the framing of the extensions has one reading.
+   For callers written before the repairs (checks/c05.py on branch c05x: `xoerdec 0|1 <ety> <hex>`) a leading <std>
+   argument of xoerdec / spec_nslength / spec_nsnnwn is still accepted and ignored. *)
 open Model
 open Drvlib
 
@@ -175,7 +178,7 @@ let dispatch cmd args =
   | "xuper", [std; t; v] -> let t = parse_ety t in Some (hex_opt (ext_uper_encode (std = "1") t (eval_of t v)))
   | "xberdec", [t; h] -> Some (dec_s (ext_ber_decode (parse_ety t) (bytes_of_hex h)))
   | "xuperdec", [std; t; h] -> Some (dec_s (ext_uper_decode (std = "1") (parse_ety t) (bytes_of_hex h)))
-  | "xoerdec", [std; t; h] -> Some (dec_s (ext_oer_decode (std = "1") (parse_ety t) (bytes_of_hex h)))
+  | "xoerdec", [t; h] | "xoerdec", [_; t; h] -> Some (dec_s (ext_oer_decode (parse_ety t) (bytes_of_hex h)))
   | "xtruncv", [k; t; v] -> let t = parse_ety t in Some (show_eval (truncate_val (nat_of_int (int_of_string k)) (eval_of t v)))
   | "xtrunc", [k; t] -> Some (show_ety (truncate_ty (nat_of_int (int_of_string k)) (parse_ety t)))
   | "spec_frags", [n] -> let n = int_of_string n in
@@ -183,6 +186,6 @@ let dispatch cmd args =
   | "spec_open", [h] -> Some (hex_of_bytes (bits_to_bytes (open_type_spec (bytes_of_hex h))))
   | "xopen", [h] -> Some (hex_of_bytes (bits_to_bytes (open_type (bytes_of_hex h))))
   | "spec_unused", [n] -> Some (string_of_cz (unused_bits (cz_of_string n)))
-  | "spec_nslength", [std; n] -> Some (bits_s (nslength (std = "1") (cz_of_string n)))
-  | "spec_nsnnwn", [std; n] -> Some (bits_s (nsnnwn (std = "1") (cz_of_string n)))
+  | "spec_nslength", [n] | "spec_nslength", [_; n] -> Some (bits_s (nslength (cz_of_string n)))
+  | "spec_nsnnwn", [n] | "spec_nsnnwn", [_; n] -> Some (bits_s (nsnnwn (cz_of_string n)))
   | _ -> None
